@@ -67,6 +67,18 @@ func c06Read(e c06Entry) (r c06Row) {
 
 func c06IsWild(pat string) bool { return strings.HasPrefix(pat, "*.") }
 
+// c06HasUpper reports whether a CNAME answer is spelled with upper-case
+// letters.  The statement and AGHTechDoc say nothing about the case of
+// answers (the product lower-cases patterns and queried names only).
+func c06HasUpper(s string) bool { return s != strings.ToLower(s) }
+
+// c06OddException reports answers that are "A"/"AAAA" in another spelling
+// ("a", "Aaaa"): an exception under a case-insensitive reading, a canonical
+// name under a literal one.
+func c06OddException(ans string) bool {
+	return ans != "A" && ans != "AAAA" && (strings.EqualFold(ans, "A") || strings.EqualFold(ans, "AAAA"))
+}
+
 // c06Match: an exact pattern matches its own name; "*.s" matches every name
 // strictly below s.
 func c06Match(pat, name string) bool {
@@ -196,7 +208,7 @@ func c06Resolve(table []c06Entry, name string, qt uint16) *c06Expect {
 	for _, e := range table {
 		m.rows = append(m.rows, c06Read(e))
 	}
-	m.explore(m.name, 0, map[string]bool{}, nil)
+	m.explore(m.name, 0, map[string]bool{}, nil, false)
 	nmatch := 0
 	for _, r := range m.rows {
 		if c06Match(r.pat, m.name) {
@@ -208,11 +220,19 @@ func c06Resolve(table []c06Entry, name string, qt uint16) *c06Expect {
 	return m.exp
 }
 
-func (m *c06Model) explore(cur string, depth int, seen map[string]bool, path []string) {
+func (m *c06Model) explore(cur string, depth int, seen map[string]bool, path []string, mixed bool) {
 	var cn, addr []c06Row
 	for _, r := range m.rows {
 		if !c06Match(r.pat, cur) {
 			continue
+		}
+		if c06OddException(r.ans) {
+			// Unspecified; nothing below depends on how it is read.
+			m.zone("odd-case-exception-answer", depth, path)
+			// Which lines compete depends on the reading: no order claim.
+			m.exp.Ties = true
+
+			return
 		}
 		if r.kind == c06KindCNAME {
 			cn = append(cn, r)
@@ -250,7 +270,22 @@ func (m *c06Model) explore(cur string, depth int, seen map[string]bool, path []s
 			m.exp.Ties = true
 			m.soft("several-cnames-of-equal-rank")
 		}
+		mixedIn := mixed
 		for _, d := range distinct {
+			mixed = mixedIn
+			if c06HasUpper(d.ans) {
+				// Unspecified zone: whether "NAS.home.example" continues at
+				// the lines for nas.home.example, is its own exception, or is
+				// served as spelled is not stated.  The walk goes on with the
+				// lower-cased name only to tell the evidence what kind of
+				// structure (chain, cycle) the capitalised names form.
+				m.zone("mixed-case-cname-answer", depth, path)
+				// Which lines are met next depends on the reading, so which
+				// of them compete is unknown: no order-independence claim.
+				m.exp.Ties = true
+				d.ans = strings.ToLower(d.ans)
+				mixed = true
+			}
 			switch {
 			case d.ans == d.pat:
 				// "key -> key": CNAME exception.
@@ -265,12 +300,18 @@ func (m *c06Model) explore(cur string, depth int, seen map[string]bool, path []s
 					m.zone("wildcard-cname-into-own-pattern", depth, path)
 				} else {
 					m.tag("cycle:through-queried-name")
+					if mixed {
+						m.tag("cycle:with-capitalised-target:through-queried-name")
+					}
 					m.zone("cname-cycle", depth, path)
 				}
 			case c06IsWild(d.pat) && d.ans == cur:
 				m.zone("wildcard-cname-into-own-pattern", depth, path)
 			case seen[d.ans]:
 				m.tag("cycle:not-containing-queried-name")
+				if mixed {
+					m.tag("cycle:with-capitalised-target:not-containing-queried-name")
+				}
 				m.zone("cname-cycle", depth, path)
 			default:
 				s2 := make(map[string]bool, len(seen)+1)
@@ -278,7 +319,7 @@ func (m *c06Model) explore(cur string, depth int, seen map[string]bool, path []s
 					s2[k] = true
 				}
 				s2[d.ans] = true
-				m.explore(d.ans, depth+1, s2, append(append([]string(nil), path...), d.ans))
+				m.explore(d.ans, depth+1, s2, append(append([]string(nil), path...), d.ans), mixed)
 			}
 		}
 
@@ -518,7 +559,8 @@ func c06Sound(table []c06Entry, name string, qt uint16, o c06Obs) (bad, why stri
 	}
 	final := strings.ToLower(name)
 	if o.Canon != "" {
-		final = o.Canon
+		// Names are compared without regard to case.
+		final = strings.ToLower(o.Canon)
 	}
 	for _, ip := range o.IPs {
 		inTable, famOK := false, false
